@@ -178,17 +178,26 @@ def storeEncode (st : Store) (b : List (BitVec 8)) (t : Gen.Encoding.FlagType) :
   | some (st', blocks) => (st', b ++ (Wire.encBlocks blocks).map (BitVec.ofNat 8))
   | none => (st, b)
 
-/-- the Go error value of a decoding error of the model -/
+/-- the Go error value of each decoding error of the model (`io.EOF`, the store's "unknown bin encoding",
+    `errUnknownFlag` of the plain fallback, the errors of `mapping.Decode` and of the constructors it calls,
+    the two `errors.New` of `decodeAndMergeWith`) -/
 def decErr : SkErr → GoErr
   | .eof => GoErr.eof
   | .unknownBinEncoding => GoErr.named "unknown bin encoding"
+  | .unknownFlag => errUnknownFlag
+  | .unknownMapping => errUnknownMapping
+  | .badGamma => errBadGamma
+  | .mismatch => GoErr.named "index mapping mismatch"
+  | .missingMapping => GoErr.named "missing index mapping"
   | _ => GoErr.named "decoding error"
 
 /-- `Store.DecodeAndMergeWith` through the model's `Sketch.decodeStore`; on an error the store has absorbed
     the bins read so far in Go, which the model does not expose: the instance returns the unchanged store (the
-    sketch-level decoder returns as soon as it sees the error) -/
+    sketch-level decoder returns as soon as it sees the error).  The `SubFlag` the sketch decoder hands over is
+    `flag.SubFlag()`, which keeps the sub-flag bits IN PLACE (`flag & 0xFC`); the model's `decodeStore` takes
+    the sub-flag number `Wire.flagSub` (shifted down). -/
 def storeDecode (st : Store) (b : List (BitVec 8)) (sub : Gen.Encoding.SubFlag) : Store × List (BitVec 8) × GoErr :=
-  match Sketch.decodeStore st sub.byte.toNat (b.map BitVec.toNat) with
+  match Sketch.decodeStore st (Wire.flagSub sub.byte.toNat) (b.map BitVec.toNat) with
   | some (.ok (st', rest)) => (st', rest.map (BitVec.ofNat 8), GoErr.nil)
   | some (.error e) => (st, b, decErr e)
   | none => (st, b, GoErr.nil)
@@ -207,6 +216,7 @@ instance : StoreI Store where
   Reweight := storeReweight
   Encode := storeEncode
   DecodeAndMergeWith := storeDecode
+  ForEachList st := (st.binsList.getD []).map (fun p => (p.1, F64.fin p.2))
 
 @[simp] theorem store_add (st : Store) (i : Int) : StoreI.Add st i = (st.addWithCount i 1).getD st := rfl
 @[simp] theorem store_addWithCount (st : Store) (i : Int) (c : F64) :
